@@ -233,6 +233,201 @@ theorem C02_x64_epilogue_exact (text : List Nat) (pc : Nat) (pops : List PReg) (
       simp only [hloc, hbp]
       exact finishX64_ok (by omega) (by simpa using hra) hra0 (by intro ⟨e, _⟩; omega)
 
+/-- The forward scan over `pop…; jmp`: a jump that follows at least one pop is a tail call. -/
+theorem epilogueScan_pops_jmp (prev : Bool) (j : Nat) (hj : j = 0xeb ∨ j = 0xe9 ∨ j = 0xff) :
+    ∀ (pops : List PReg) (rest : List Nat) (n : Nat)
+    (acc : Option Nat) (fuel : Nat), (∀ r ∈ pops, r.lo < 8) → pops.length < fuel →
+    n + pops.length + 1 < 32768 → 0 < n + pops.length →
+    epilogueScanX64 prev (pops.flatMap encPop ++ j :: rest) n acc fuel =
+      epiRule (n + pops.length) (bpSlot pops n acc)
+  | [], rest, n, acc, fuel, _, hf, hn, hpos => by
+    obtain ⟨f, rfl⟩ : ∃ f, fuel = f + 1 := ⟨fuel - 1, by simp at hf; omega⟩
+    have hn0 : n ≠ 0 := by simp at hpos; omega
+    have hc3 : j ≠ 0xc3 := by rcases hj with h | h | h <;> omega
+    have hjj : j = 0xeb ∨ j = 0xe9 ∨ j = 0xff := hj
+    simp only [List.flatMap_nil, List.nil_append, epilogueScanX64, bpSlot, epiRule,
+      List.length_nil, Nat.add_zero, hc3, hjj, hn0, if_true, if_false, ne_eq, not_false_eq_true]
+    cases acc <;> rfl
+  | r :: more, rest, n, acc, fuel, hwf, hf, hn, _ => by
+    obtain ⟨f, rfl⟩ : ∃ f, fuel = f + 1 := ⟨fuel - 1, by simp at hf; omega⟩
+    have hlo := hwf r (by simp)
+    have ih := epilogueScan_pops_jmp prev j hj more rest (n + 1)
+      (if r.isRbp then some n else acc) f (fun x hx => hwf x (by simp [hx]))
+      (by simp at hf; omega) (by simp at hn; omega) (by omega)
+    have hlen : n + (r :: more).length = n + 1 + more.length := by simp; omega
+    rw [hlen]
+    simp only [bpSlot]
+    rw [← ih]
+    have hU : n + 1 < U16 := by unfold U16; simp at hn; omega
+    have h32 : n < 32768 := by simp at hn; omega
+    obtain ⟨ext, lo⟩ := r
+    simp only at hlo
+    have hcases : lo = 0 ∨ lo = 1 ∨ lo = 2 ∨ lo = 3 ∨ lo = 4 ∨ lo = 5 ∨ lo = 6 ∨ lo = 7 := by omega
+    cases ext <;> rcases hcases with h | h | h | h | h | h | h | h <;> subst h <;>
+      simp [encPop, epilogueScanX64, PReg.isRbp, hU, h32, byteAt]
+
+theorem not_prologue_of_pop_first (r : PReg) (more : List Nat) (hlo : r.lo < 8) :
+    nextExpectedInPrologueX64 (encPop r ++ more) = false := by
+  obtain ⟨ext, lo⟩ := r
+  simp only at hlo
+  have hcases : lo = 0 ∨ lo = 1 ∨ lo = 2 ∨ lo = 3 ∨ lo = 4 ∨ lo = 5 ∨ lo = 6 ∨ lo = 7 := by omega
+  simp only [nextExpectedInPrologueX64]
+  split
+  · rfl
+  · cases ext <;> rcases hcases with h | h | h | h | h | h | h | h <;> subst h <;>
+      simp [encPop, byteAt]
+
+/-- **x86-64 tail calls are exact.** A thread stopped inside `pop r1; …; pop rn; jmp target`
+(`n ≥ 1`; `jmp rel8`, `jmp rel32` or `jmp r/m`): the analysed rule restores exactly the `rsp`
+and `rbp` the tail-called function will be entered with and reports the return address at the
+top of its stack - the caller of the function that is being left. -/
+theorem C02_x64_tail_call_exact (text : List Nat) (pc : Nat) (pops : List PReg) (j : Nat)
+    (rest : List Nat) (regs : RegsX64) (mem : Mem) (sp' bp' ra : Nat)
+    (hj : j = 0xeb ∨ j = 0xe9 ∨ j = 0xff) (hne : pops ≠ [])
+    (hpc : pc ≤ text.length) (hcode : text.drop pc = pops.flatMap encPop ++ j :: rest)
+    (hwf : ∀ r ∈ pops, r.lo < 8) (hlen : pops.length + 2 < 32768)
+    (hrun : runPops mem pops regs.sp regs.bp = some (sp', bp'))
+    (hra : mem sp' = some ra) (hra0 : ra ≠ 0) (hfit : sp' + 8 < U64) :
+    ∃ rule, anaX64 text pc = some (some rule) ∧
+      execX64 rule true regs mem = .ret (.frame ra) (afterX64 regs ra (sp' + 8) bp') := by
+  obtain ⟨r0, more, rfl⟩ : ∃ r0 more, pops = r0 :: more := by
+    cases pops with
+    | nil => exact absurd rfl hne
+    | cons a b => exact ⟨a, b, rfl⟩
+  have hpro : anaPrologueX64 text pc = some none := by
+    have : nextExpectedInPrologueX64 (text.drop pc) = false := by
+      rw [hcode, List.flatMap_cons, List.append_assoc]
+      exact not_prologue_of_pop_first r0 _ (hwf r0 (by simp))
+    simp only [anaPrologueX64, this]
+    simp; omega
+  have hfuel : (r0 :: more).length < (text.drop pc).length + 1 := by
+    rw [hcode]; simp only [List.length_append, List.length_cons]
+    have := flatMap_encPop_length_ge (r0 :: more); simp only [List.length_cons] at this; omega
+  have hepi : anaEpilogueX64 text pc =
+      some (epiRule (r0 :: more).length (bpSlot (r0 :: more) 0 none)) := by
+    simp only [anaEpilogueX64]
+    rw [if_neg (by omega)]
+    rw [hcode] at hfuel ⊢
+    rw [epilogueScan_pops_jmp _ j hj (r0 :: more) rest 0 none _ hwf hfuel (by omega) (by simp)]; simp
+  have hana : anaX64 text pc = some (epiRule (r0 :: more).length (bpSlot (r0 :: more) 0 none)) := by
+    simp only [anaX64, hpro, hepi]
+  have hsum := runPops_summary mem regs.sp regs.bp (r0 :: more) 0 regs.bp none sp' bp'
+    (by simpa using hrun) rfl
+  obtain ⟨hsp, hbp⟩ := hsum
+  simp only [Nat.zero_add] at hsp
+  have hn : (r0 :: more).length ≠ 0 := by simp
+  have hU : (r0 :: more).length + 1 < U16 := by unfold U16; omega
+  have hU' : more.length + 1 + 1 < U16 := by simpa using hU
+  cases hb : bpSlot (r0 :: more) 0 none with
+  | none =>
+    rw [hb] at hbp
+    simp only [Option.some.injEq] at hbp
+    subst hbp
+    refine ⟨.offsetSp ((r0 :: more).length + 1), by simp [hana, epiRule, hU', hb], ?_⟩
+    simp only [execX64]
+    rw [umul_eq _ (by unfold U64; omega)]
+    have hc : cadd regs.sp (((r0 :: more).length + 1) * 8) = some (sp' + 8) := by
+      rw [cadd_eq_some (by omega)]; congr 1; omega
+    simp only [hc]
+    exact finishX64_ok (by omega) (by simpa using hra) hra0 (by intro ⟨e, _⟩; omega)
+  | some k =>
+    rw [hb] at hbp
+    refine ⟨.offsetSpAndRestoreBp ((r0 :: more).length + 1) k, by simp [hana, epiRule, hU', hb], ?_⟩
+    have hk : k < (r0 :: more).length := by
+      have gen : ∀ (l : List PReg) (i : Nat) (acc : Option Nat) (k : Nat),
+          bpSlot l i acc = some k → (acc = some k) ∨ (i ≤ k ∧ k < i + l.length) := by
+        intro l
+        induction l with
+        | nil => intro i acc k h; simp [bpSlot] at h; exact Or.inl h
+        | cons r more ih =>
+          intro i acc k h
+          simp only [bpSlot] at h
+          rcases ih _ _ _ h with h1 | h1
+          · by_cases hr : r.isRbp
+            · simp [hr] at h1; right; simp; omega
+            · simp [hr] at h1; left; exact h1
+          · right; simp; omega
+      rcases gen (r0 :: more) 0 none k hb with h1 | h1
+      · cases h1
+      · omega
+    simp only [execX64]
+    rw [umul_eq _ (by unfold U64; omega)]
+    have hc : cadd regs.sp (((r0 :: more).length + 1) * 8) = some (sp' + 8) := by
+      rw [cadd_eq_some (by omega)]; congr 1; omega
+    simp only [hc]
+    rw [imul_eq _ (by omega)]
+    have hloc : caddSigned regs.sp ((k : Int) * 8) = some (regs.sp + 8 * k) := by
+      apply caddSigned_of_int (by unfold U64 at *; omega) ⟨by omega, by omega⟩ (by push_cast; omega)
+        (by omega)
+    simp only [hloc, hbp]
+    exact finishX64_ok (by omega) (by simpa using hra) hra0 (by intro ⟨e, _⟩; omega)
+
+/-- The instruction before a tail-call `jmp` that tells the analysis that the frame is gone:
+a `pop`, `add rsp, imm8` or `add rsp, imm32`. -/
+inductive LastBeforeJmp where
+  | pop (r : PReg)
+  | addImm8 (i : Nat)
+  | addImm32 (a b c d : Nat)
+
+def LastBeforeJmp.bytes : LastBeforeJmp → List Nat
+  | .pop r => encPop r
+  | .addImm8 i => [0x48, 0x83, 0xc4, i]
+  | .addImm32 a b c d => [0x48, 0x81, 0xc4, a, b, c, d]
+
+/-- **x86-64, stopped exactly on a tail-call `jmp`** that follows a `pop` or `add rsp, imm`:
+the frame is already gone, the rule is `JustReturn`: the return address is the word at `rsp`. -/
+theorem C02_x64_on_tail_jmp (pre rest : List Nat) (l : LastBeforeJmp) (j : Nat)
+    (regs : RegsX64) (mem : Mem) (ra : Nat)
+    (hj : j = 0xeb ∨ j = 0xe9 ∨ j = 0xff)
+    (hl : match l with | .pop r => r.lo < 8 | _ => True)
+    (hra : mem regs.sp = some ra) (hra0 : ra ≠ 0) (hfit : regs.sp + 8 < U64) :
+    anaX64 (pre ++ l.bytes ++ j :: rest) (pre ++ l.bytes).length = some (some .justReturn) ∧
+    execX64 .justReturn true regs mem = .ret (.frame ra) (afterX64 regs ra (regs.sp + 8) regs.bp) := by
+  refine ⟨?_, ?_⟩
+  · have htake : (pre ++ l.bytes ++ j :: rest).take (pre ++ l.bytes).length = pre ++ l.bytes :=
+      List.take_left
+    have hdrop : (pre ++ l.bytes ++ j :: rest).drop (pre ++ l.bytes).length = j :: rest :=
+      List.drop_left
+    have hnp : ¬ (pre ++ l.bytes).length > (pre ++ l.bytes ++ j :: rest).length := by
+      simp only [List.length_append, List.length_cons]; omega
+    have hpro : nextExpectedInPrologueX64 (j :: rest) = false := by
+      simp only [nextExpectedInPrologueX64]
+      split
+      · rfl
+      · rcases hj with rfl | rfl | rfl <;> simp [byteAt]
+    have hscan : ∀ prev fuel, prev = true →
+        epilogueScanX64 prev (j :: rest) 0 none (fuel + 1) = some .justReturn := by
+      intro prev fuel hp
+      subst hp
+      rcases hj with rfl | rfl | rfl <;> simp [epilogueScanX64]
+    have hprev : ((match (pre ++ l.bytes).getLast? with
+        | some b => b &&& 0xf8 == 0x58
+        | none => false) ||
+        (decide ((pre ++ l.bytes).length ≥ 4) &&
+          ((pre ++ l.bytes).drop ((pre ++ l.bytes).length - 4)).take 3 == [0x48, 0x83, 0xc4]) ||
+        (decide ((pre ++ l.bytes).length ≥ 7) &&
+          ((pre ++ l.bytes).drop ((pre ++ l.bytes).length - 7)).take 3 == [0x48, 0x81, 0xc4])) = true := by
+      cases l with
+      | pop r =>
+        obtain ⟨ext, lo⟩ := r
+        simp only at hl
+        have hcases : lo = 0 ∨ lo = 1 ∨ lo = 2 ∨ lo = 3 ∨ lo = 4 ∨ lo = 5 ∨ lo = 6 ∨ lo = 7 := by omega
+        cases ext <;> rcases hcases with h | h | h | h | h | h | h | h <;> subst h <;>
+          simp [LastBeforeJmp.bytes, encPop]
+      | addImm8 i =>
+        have e : (pre ++ [0x48, 0x83, 0xc4, i]).length - 4 = pre.length := by simp
+        simp only [LastBeforeJmp.bytes, e, List.drop_left]
+        simp
+      | addImm32 a b c d =>
+        have e : (pre ++ [0x48, 0x81, 0xc4, a, b, c, d]).length - 7 = pre.length := by simp
+        simp only [LastBeforeJmp.bytes, e, List.drop_left]
+        simp
+    simp only [anaX64, anaPrologueX64, anaEpilogueX64, hnp, if_false, htake, hdrop, hpro,
+      Bool.not_false, if_true]
+    exact congrArg some (hscan _ _ hprev)
+  · simp only [execX64, cadd_eq_some hfit]
+    exact finishX64_ok (by omega) (by simpa using hra) hra0 (by intro ⟨e, _⟩; omega)
+
 /-! ## x86-64 prologues -/
 
 /-- The bytes of `push r1; …; push rn` as the backward scan meets them: `pushes` lists the
